@@ -301,6 +301,19 @@ CK_RV P11Attribute::retrieve(Token *token, bool isPrivate, CK_VOID_PTR pValue, C
 			return CKR_GENERAL_ERROR;
 		}
 	}
+	else
+	{
+		// The stored value must be of a kind that fits the fixed size of this attribute type
+		bool fits = false;
+		if (attr.isBooleanAttribute()) fits = (size == sizeof(CK_BBOOL));
+		else if (attr.isUnsignedLongAttribute()) fits = (size == sizeof(CK_ULONG));
+		else if (attr.isByteStringAttribute()) fits = true; // The length is checked before it is copied
+		if (!fits)
+		{
+			ERROR_MSG("Internal error: the stored attribute does not fit its type");
+			return CKR_GENERAL_ERROR;
+		}
+	}
 
 	// [PKCS#11 v2.40, C_GetAttributeValue]
 	// 3. Otherwise, if the pValue field has the value NULL_PTR, then the
@@ -341,12 +354,22 @@ CK_RV P11Attribute::retrieve(Token *token, bool isPrivate, CK_VOID_PTR pValue, C
 					return CKR_GENERAL_ERROR;
 				}
 				if (value.size() !=  0) {
+					if (value.size() < attrSize)
+					{
+						ERROR_MSG("Internal error: the stored attribute is shorter than its type");
+						return CKR_GENERAL_ERROR;
+					}
 					const unsigned char* attrPtr = value.const_byte_str();
 					memcpy(pValue,attrPtr,attrSize);
 				}
 			}
 			else if (attr.getByteStringValue().size() != 0)
 			{
+				if (attr.getByteStringValue().size() < attrSize)
+				{
+					ERROR_MSG("Internal error: the stored attribute is shorter than its type");
+					return CKR_GENERAL_ERROR;
+				}
 				const unsigned char* attrPtr = attr.getByteStringValue().const_byte_str();
 				memcpy(pValue,attrPtr,attrSize);
 			}
